@@ -170,6 +170,10 @@ class SCCReader(BaseReader):
     """
 
     def __init__(self, *args, **kw):
+        self._reset()
+
+    def _reset(self):
+        """(Re)initialize the state used while reading one file"""
         self.caption_stash = CaptionCreator()
         self.time_translator = _SccTimeTranslator()
 
@@ -233,6 +237,8 @@ class SCCReader(BaseReader):
         if not isinstance(content, str):
             raise InvalidInputError("The content is not a unicode string.")
 
+        # a reader object may be used for several files
+        self._reset()
         self.simulate_roll_up = simulate_roll_up
         self.time_translator.offset = offset * 1000000
         # split lines
